@@ -462,6 +462,12 @@ def f3(ctx, fx):
     s = ff.summ.get(entry)
     sw = format_switches(fn)
     if not sw:
+        # the format-specific assembly may live in a private helper: judged in the entry's canonical view
+        vfn = fx.view(entry)
+        if format_switches(vfn):
+            fn = vfn
+            sw = format_switches(fn)
+    if not sw:
         ctx.ok("C10.F3", fn, "assembly", "no format-specific assembly in create_presentation")
         return
     nbad = 0
@@ -500,4 +506,25 @@ def f3(ctx, fx):
             ctx.ok("C10.F3", P, "json-disclosures", "the JSON envelope's `disclosures` is a copy of hs_disclosures", line=w["line"])
         else:
             ctx.finding("C10.F3", P, "json-disclosures", "the JSON envelope's `disclosures` is not a plain copy of the selected list hs_disclosures: %s" % (vstr(w["value"], 4) if w["value"] is not None else w["how"]), line=w["line"])
+    # …on every path: the serialisation of the envelope is not reachable without passing one of these whole copies (an `if !selection.is_empty()`
+    # around the copy leaves the constructor's disclosures in the output for the empty selection)
+    copy_bbs = [w["bb"] for w in ws if not (w["how"] == "init" and (w["fn"].is_macro_generated() or w["value"] is None))
+                and ((w["how"] == "mutborrow" and _whole_copy_call(P, w)) or (w["how"] in ("assign", "init") and w["value"] is not None
+                     and must(w["value"], lambda x: x.kind == "field" and x.d.get("name") == "hs_disclosures")))]
+    pv_ = vals(P)
+    sers = []
+    for b_, t_ in P.calls():
+        if (t_.get("resolved") or t_.get("callee") or "").startswith(("serde_json::to_string", "serde_json::to_value", "serde_json::to_vec", "serde_json::ser::to_string")):
+            n_ = pv_.call_node(b_)
+            if any(x.kind in ("call", "agg", "field", "mut", "phi") and "SDJWTJson" in ((x.d.get("term") or {}).get("self_ty") or "") + str((x.d.get("agg") or {}).get("adt") or "") + str(x.d.get("adt") or "")
+                   for k in n_.kids for x in walk(k)) or "SDJWTJson" in str(t_.get("gargs") or ""):
+                sers.append(b_)
+    if copy_bbs and sers:
+        r_ = cfg.reachable(P, [0], removed_blocks=copy_bbs)
+        late = [b_ for b_ in sers if b_ in r_]
+        if late:
+            ctx.finding("C10.F3", P, "json-disclosures-always", "the JSON envelope can be serialised without its `disclosures` having been replaced by the selected list (the copy is conditional): "
+                        "for that selection the presentation carries the disclosures the holder was constructed with", line=P.term(late[0]).get("line"))
+        else:
+            ctx.ok("C10.F3", P, "json-disclosures-always", "every path to the serialisation of the envelope passes the whole copy of hs_disclosures", line=P.term(sers[0]).get("line"))
     ctx.floor("C10.F3", "writes of the JSON envelope's disclosure list in create_presentation", n, 1)
